@@ -365,3 +365,11 @@ CHECKS["C28"]["text"] += (" Exported functions with several outputs are called u
 CHECKS["C31"]["text"] += " Families with AD heads inside conjunctions and ADs whose heads collapse to one atom are included."
 CHECKS["C33"]["text"] += (" Probabilistic rule sets: the probability of every cut/2 answer is compared with the exact value TLC "
                           "computes per possible world (JudgeCutProb.tla over Cut.tla).")
+CHECKS["C09"]["text"] += (" Layer B: BreakCycles.tla transcribes cycles.py (_break_cycles with its ancestors / cycles_broken / content "
+                          "bookkeeping and the memo-reuse condition) onto the builder model of FormulaBuilderOps.tla; TLC checks MeaningPreserved, "
+                          "TargetAcyclic and MemoSound for every cyclic source graph of the family without a cycle through negation, every "
+                          "sequence of labelled nodes (queries, then evidence with a fresh memo table) and every atom assignment; the variant "
+                          "without the cycles_broken half of the reuse test must yield a counterexample. Every explored behaviour is replayed on the "
+                          "real break_cycles (registered keys and target node table must be the model's) and random larger graphs run on the real "
+                          "code are validated against the model and judged by Layer A (JudgeBreakCycles.tla); only Layer A says VIOLATION.")
+CHECKS["C09"]["technique"] += "; TLC model checking of an implementation-shaped TLA+ model of break_cycles with spec->code replay and code->spec validation"
